@@ -33,6 +33,14 @@ func (v *FnVC) call(fr *frame, st *State, x ssa.CallInstruction) Val {
 		if cal := x.Common().StaticCallee(); cal != nil {
 			k := FuncKey(cal)
 			st.ghost["called#"+k] = tTrue
+			{
+				// calls(f): how many direct calls of f this activation has made
+				n := tZero
+				if t, ok := st.ghost["count#"+k]; ok {
+					n = t
+				}
+				st.ghost["count#"+k] = v.sc.Define("ghostn", Add(n, IntLit(1)))
+			}
 			if v.w.Contracts.argObserved(k) {
 				// lastArg(f, i): the i-th operand (receiver first) of the most recent direct call of f
 				for ai, a := range x.Common().Args {
@@ -870,7 +878,7 @@ func (w *World) mentionsCallObservers(e SExpr, pkgShort string, depth int) bool 
 	case SCall:
 		if id, ok := x.Fn.(SIdent); ok {
 			switch id.Name {
-			case "called", "errSeen", "lastResult", "lastArg":
+			case "called", "errSeen", "lastResult", "lastArg", "calls":
 				return true
 			}
 			for _, key := range []string{pkgShort + "." + id.Name, id.Name} {
